@@ -40,6 +40,11 @@ def gen_case(rng, tier, idx):
         f = float(gen.pick(rng, [1.0, 3.0])) / base['scale']
         base['pots'] = [(s, np.where(np.isfinite(a), a * f, a)) for s, a in base['pots']]
         base['scale'] = base['scale'] * f
+    if rng.rand() < 0.3:
+        # a constant added to a clique's log-potentials does not change the distribution
+        off = float(gen.pick(rng, [-300.0, 400.0]))
+        base['pots'] = [(s_, np.where(np.isfinite(a), a + off, a)) for s_, a in base['pots']]
+        base['offset'] = off
     base['total'] = float(gen.pick(rng, TOTALS))
     rows = gen.pick(rng, ROWS)
     if rows is not None and rows >= 100000 and idx % 2 != 0:
